@@ -929,7 +929,34 @@ bool dispatch_api(State& st, const std::string& op, const json& a, json& ret)
             try
             {
                 json iret;
-                bool ok = dispatch_api(st, iname, inner, iret) || dispatch_table(st, iname, inner, iret);
+                bool ok = true;
+                if (a.value("unwinding", false))
+                {
+                    // the call is made from a destructor that runs while another exception is unwinding the stack (a scope guard
+                    // in the caller's code): std::uncaught_exceptions() > 0 inside the library call
+                    std::exception_ptr inner_err;
+                    struct Guard
+                    {
+                        std::function<void()> f;
+                        std::exception_ptr* e;
+                        ~Guard()
+                        {
+                            try { f(); }
+                            catch (...) { *e = std::current_exception(); }
+                        }
+                    };
+                    try
+                    {
+                        Guard g{[&] { ok = dispatch_api(st, iname, inner, iret) || dispatch_table(st, iname, inner, iret); }, &inner_err};
+                        throw std::runtime_error("the caller's own failure");
+                    }
+                    catch (const std::runtime_error&)
+                    {
+                    }
+                    if (inner_err) std::rethrow_exception(inner_err);
+                }
+                else
+                    ok = dispatch_api(st, iname, inner, iret) || dispatch_table(st, iname, inner, iret);
                 if (!ok) throw harness_error("unknown inner op " + iname);
                 r["ret"] = iret;
             }
